@@ -42,6 +42,32 @@ def run(rep):
         for ta, tb, tc in zip(a, b, c):
             pairs.append({"id": ta["id"] + "|same", "a": _norm(ta), "b": _norm(tb), "ga": bool(ta.get("global_rng_untouched", True)), "gb": bool(tb.get("global_rng_untouched", True))})
             pairs.append({"id": ta["id"] + "|other", "a": _norm(ta), "b": _norm(tc), "ga": True, "gb": True})
+    # multi-task schedulers (train_uts / train_smt / train_active_mt) on the scripted learner of the C11 scheduler part:
+    # every scenario is run twice in this process with different states of the global generators (random, numpy.random)
+    n_sched = 0
+    try:
+        from . import c11_sched
+    except ImportError:
+        c11_sched = None
+    if c11_sched is not None:
+        import random as _random
+
+        import numpy as _np
+
+        def _sched_events(sc, g):
+            _random.seed(g)
+            _np.random.seed(g)
+            tr = c11_sched.run_scheduler(dict(sc))
+            evs = [{"ev": "sched", "key": json.dumps(e, sort_keys=True, default=str)} for e in tr["events"]]
+            evs.append({"ev": "final", "key": json.dumps({k: tr.get(k) for k in ("aborted", "exception", "env_steps")}, sort_keys=True, default=str)})
+            return [dict({k: ("" if k in ("key", "val", "vd", "act") else (False if k in ("term", "trunc", "after_end", "auto") else ([] if k in ("obs", "next") else -1))) for k in KEEP}, **e) for e in evs]
+
+        scs = c11_sched.scenarios(rep.seed, quick)
+        for sc in scs:
+            a_, b_ = _sched_events(sc, 11), _sched_events(sc, 987)
+            pairs.append({"id": f"sched-{sc['id']}:stub|same", "a": a_, "b": b_, "ga": True, "gb": True})
+            n_sched += 1
+        rep.extra["scheduler_pairs"] = n_sched
     # binding canary: one corrupted digest must be rejected
     bad = json.loads(json.dumps(pairs[0]))
     bad["id"] = "canary|same"
@@ -70,6 +96,8 @@ def run(rep):
         if v is None:
             raise tlc.MachineryError(f"no verdict for {p['id']}")
         rname, kind = p["id"].split(":")[0], p["id"].split("|")[1]
+        if rname.startswith("sched-"):
+            rname = "train_" + {"uts": "uts", "amt": "active_mt", "smt": "smt"}.get("".join(c for c in rname[6:] if c.isalpha()).rstrip("s"), rname[6:])
         if kind == "same":
             rep.traces += 1
             if not v["accepted"]:
